@@ -170,7 +170,7 @@ mod verif_c06 {
         run(1, 0);
     }
 
-    // @harness id=C06 tier=thorough timeout=1800 mem=10 checks=rust
+    // @harness id=C06 tier=deep timeout=1800 mem=10 checks=rust
     // @bounds console::Term that is not a tty (with its 20 Hz limiter): set_message then set_prefix; every console::Term output method and format_state panic when reached; getters compared with the reference model
     #[kani::proof]
     #[kani::unwind(6)]
@@ -179,7 +179,7 @@ mod verif_c06 {
         run(1, 1);
     }
 
-    // @harness id=C06 tier=thorough timeout=1800 mem=10 checks=rust
+    // @harness id=C06 tier=deep timeout=1800 mem=10 checks=rust
     // @bounds console::Term that is not a tty (with its 20 Hz limiter): finish; every console::Term output method and format_state panic when reached; getters compared with the reference model
     #[kani::proof]
     #[kani::unwind(6)]
@@ -188,7 +188,7 @@ mod verif_c06 {
         run(1, 2);
     }
 
-    // @harness id=C06 tier=thorough timeout=1800 mem=10 checks=rust
+    // @harness id=C06 tier=deep timeout=1800 mem=10 checks=rust
     // @bounds console::Term that is not a tty (with its 20 Hz limiter): abandon_with_message; every console::Term output method and format_state panic when reached; getters compared with the reference model
     #[kani::proof]
     #[kani::unwind(6)]
@@ -215,7 +215,7 @@ mod verif_c06 {
         run(1, 5);
     }
 
-    // @harness id=C06 tier=thorough timeout=3400 mem=24 checks=rust
+    // @harness id=C06 tier=deep timeout=3400 mem=24 checks=rust
     // @bounds member of a MultiProgress whose draw target is hidden (real MultiState::draw / suspend / width): two symbolic operations out of {tick, set position, set/inc/dec/unset length, reset} with u64 arguments; every console::Term output method and format_state panic when reached; getters compared with the reference model
     #[kani::proof]
     #[kani::unwind(6)]
@@ -224,7 +224,7 @@ mod verif_c06 {
         run(2, 0);
     }
 
-    // @harness id=C06 tier=thorough timeout=3400 mem=24 checks=rust
+    // @harness id=C06 tier=deep timeout=3400 mem=24 checks=rust
     // @bounds member of a MultiProgress whose draw target is hidden (real MultiState::draw / suspend / width): set_message then set_prefix; every console::Term output method and format_state panic when reached; getters compared with the reference model
     #[kani::proof]
     #[kani::unwind(6)]
@@ -233,7 +233,7 @@ mod verif_c06 {
         run(2, 1);
     }
 
-    // @harness id=C06 tier=thorough timeout=3400 mem=24 checks=rust
+    // @harness id=C06 tier=deep timeout=3400 mem=24 checks=rust
     // @bounds member of a MultiProgress whose draw target is hidden (real MultiState::draw / suspend / width): finish; every console::Term output method and format_state panic when reached; getters compared with the reference model
     #[kani::proof]
     #[kani::unwind(6)]
@@ -242,7 +242,7 @@ mod verif_c06 {
         run(2, 2);
     }
 
-    // @harness id=C06 tier=thorough timeout=3400 mem=24 checks=rust
+    // @harness id=C06 tier=deep timeout=3400 mem=24 checks=rust
     // @bounds member of a MultiProgress whose draw target is hidden (real MultiState::draw / suspend / width): abandon_with_message; every console::Term output method and format_state panic when reached; getters compared with the reference model
     #[kani::proof]
     #[kani::unwind(6)]
@@ -251,7 +251,7 @@ mod verif_c06 {
         run(2, 3);
     }
 
-    // @harness id=C06 tier=thorough timeout=3400 mem=24 checks=rust
+    // @harness id=C06 tier=deep timeout=3400 mem=24 checks=rust
     // @bounds member of a MultiProgress whose draw target is hidden (real MultiState::draw / suspend / width): println; every console::Term output method and format_state panic when reached; getters compared with the reference model
     #[kani::proof]
     #[kani::unwind(6)]
@@ -260,7 +260,7 @@ mod verif_c06 {
         run(2, 4);
     }
 
-    // @harness id=C06 tier=thorough timeout=3400 mem=24 checks=rust
+    // @harness id=C06 tier=deep timeout=3400 mem=24 checks=rust
     // @bounds member of a MultiProgress whose draw target is hidden (real MultiState::draw / suspend / width): suspend; every console::Term output method and format_state panic when reached; getters compared with the reference model
     #[kani::proof]
     #[kani::unwind(6)]
